@@ -4134,3 +4134,86 @@ func TestRuntimeCapabilitiesUnpublishBackwardCompatibility(t *testing.T) {
 		})
 	})
 }
+
+func TestRuntimeStorageCapabilityControllerRetargetPersistence(t *testing.T) {
+	t.Parallel()
+
+	// The new target of a retargeted storage capability controller must be persisted,
+	// independent of how many capability controllers the account has, i.e. also when
+	// the storage map of the capability controllers is not inlined in the account's root slab.
+
+	for _, controllerCount := range []int{1, 10, 100} {
+
+		t.Run(fmt.Sprintf("%d controllers", controllerCount), func(t *testing.T) {
+			t.Parallel()
+
+			rt := NewTestRuntime()
+
+			runtimeInterface := &TestRuntimeInterface{
+				Storage: NewTestLedger(nil, nil),
+				OnGetSigningAccounts: func() ([]Address, error) {
+					return []Address{{0, 0, 0, 0, 0, 0, 0, 1}}, nil
+				},
+				OnEmitEvent: func(event cadence.Event) error {
+					return nil
+				},
+			}
+
+			nextTransactionLocation := NewTransactionLocationGenerator()
+
+			for _, tx := range []string{
+				fmt.Sprintf(
+					// language=cadence
+					`
+                      transaction {
+                          prepare(signer: auth(Capabilities) &Account) {
+                              var i = 0
+                              while i < %d {
+                                  signer.capabilities.storage.issue<&Int>(/storage/a)
+                                  i = i + 1
+                              }
+                          }
+                      }
+                    `,
+					controllerCount,
+				),
+				// language=cadence
+				`
+                  transaction {
+                      prepare(signer: auth(Capabilities) &Account) {
+                          let controller = signer.capabilities.storage.getController(byCapabilityID: 1)!
+                          controller.retarget(/storage/b)
+                          assert(controller.target() == /storage/b)
+                      }
+                  }
+                `,
+				// language=cadence
+				`
+                  transaction {
+                      prepare(signer: auth(Capabilities) &Account) {
+                          let controller = signer.capabilities.storage.getController(byCapabilityID: 1)!
+                          assert(controller.target() == /storage/b)
+
+                          let controllers = signer.capabilities.storage.getControllers(forPath: /storage/b)
+                          assert(controllers.length == 1)
+                          assert(controllers[0].capabilityID == 1)
+                          assert(controllers[0].target() == /storage/b)
+                      }
+                  }
+                `,
+			} {
+				err := rt.ExecuteTransaction(
+					Script{
+						Source: []byte(tx),
+					},
+					Context{
+						Interface: runtimeInterface,
+						Location:  nextTransactionLocation(),
+						UseVM:     *compile,
+					},
+				)
+				require.NoError(t, err)
+			}
+		})
+	}
+}
